@@ -196,6 +196,7 @@ def tier_and_seed(argv=None):
     ap.add_argument("--replay", default=None)
     ap.add_argument("--only", default=None, help="substring filter on obligation/function names (debug)")
     ap.add_argument("-v", action="store_true")
+    ap.add_argument("--write-baseline", action="store_true", help="record the discharged semantic obligations + source hashes under /verif/baseline (run on the committed, unchanged tree only; never part of a registered command)")
     a = ap.parse_args(argv)
     seed = int(os.environ.get("VERIF_SEED", "0") or 0)
     if a.tier not in ("quick", "thorough"):
